@@ -3,6 +3,11 @@
 import json, subprocess
 
 CLAIMED = {
+ "C09": dict(
+   text="Proof under a stated channel protocol (unbounded in the number of nodes/partitions, every schedule covered by the most general receive): each worker body sends exactly one message on exactly one channel on every path (errors non-nil); the collector spawns one worker per map entry / partition id, consumes exactly as many real messages as it spawned or returns an error, never returns (nil, nil), and its result is ascending by score and at most k long. Neither the functions nor their function literals close the channels (noclose obligation), which is what makes every receive a real message.",
+   note="Assumed: goroutine bodies are not executed by the generator - the protocol (who sends how many messages) is declared by hooks and each party is verified against it; sort.Sort sorts w.r.t. Less (assumed contract); 'exactly the k best of the union' is carried only as sorted-prefix-of-what-was-received (multiset equality of the merge is not machine-checked); getSearchQueryNodes' 'every partition on exactly one node list' is assumed; NaN scores excluded by the float-order assumption.",
+   tech="contract-based deductive verification with ghost message counters (rely/guarantee over declared channel protocol), SMT",
+   ref="DESIGN.md §4 C09, §2.5"),
  "C10": dict(
    text="Proof (unbounded, 64-bit vectors): UuidMod is total for every non-zero modulus, returns a value < mod, reads nothing but its arguments; obligations generated from the real function body (binary.LittleEndian.Uint64 verified in place by inlining).",
    note="Assumes: go/ssa faithful, solver soundness. Modulus != 0 is a precondition pushed to callers.",
@@ -23,6 +28,11 @@ CLAIMED = {
    note="Assumed: rand.Shuffle contract; sequential semantics; independence is proved in the sufficient form 'results do not alias the buffer or each other'.",
    tech="contract-based deductive verification: loop invariants + higher-order call invariant, SMT (z3/cvc5)",
    ref="DESIGN.md §4 C16"),
+ "C17": dict(
+   text="Proof under a spawn contract: SizeInfo handles every partition exactly once (local count or exactly one worker), every variable a worker captures by reference is never re-assigned by the spawner afterwards (captured-cell stability, checked on the SSA under the module's go 1.14 loop-variable semantics), the worker body has exactly one outcome per path (one non-nil error message, or both counters added once), and any non-nil message makes the call fail.",
+   note="Assumed: goroutine bodies are verified as separate sequential functions against the declared protocol; remote PartitionInfo answers are whatever the peer returns (its own contract is PartitionInfo's); counter sums are wrap-around uint64; per-partition values are not re-derived (exactness of each addend is the callee's contract).",
+   tech="contract-based deductive verification with ghost counters + static captured-variable analysis on go/ssa, SMT",
+   ref="DESIGN.md §4 C17"),
  "C19": dict(
    text="Proof (unbounded queue size): container/heap up/down/Init/Push/Pop verified in place with loop invariants against the min/max queue types; Pop returns the old root, the root is extremal (lemma by strong induction, step discharged by SMT), lengths are exact, array changes happen only through Swap (writes-via obligation), Reverse yields a fresh well-formed queue of the opposite kind and leaves the source's storage untouched.",
    note="Assumed: strict weak order of float32 '<' on non-NaN values (NaN-free and non-nil items are queue invariants, pushed to callers as preconditions); multiset equality is carried as 'only Swap writes' + exact Push/Pop positions, the permutation argument itself is not machine-checked.",
